@@ -68,6 +68,8 @@ ASSUMPTIONS = [
     "__init__.py bodies may define attributes/functions/classes and import names, some equal to sub-modules or sub-packages of that package "
     "(no effect on CPython's finders; the sub-module must still be loaded at its dotted path)",
     "search-path directory names are character prefixes of one another (sp, sp1, sp10, sp1x, sp10y) in drawn order",
+    "reload clause: after load('p', submodules=False) a second, full load on the same loader and collection must give the complete tree "
+    "(nothing else about loading one name twice into one collection is judged)",
     "history clause: the loader's modules/lines collections are replaced before each request (loading one name twice into one collection "
     "is not judged); an inserted/appended search path is not scanned for .pth files by either side",
     "no symlinks, module bodies are `x = 1`; non-identifier / keyword / non-ASCII file and directory names are generated below the top level "
@@ -314,6 +316,12 @@ def check_case(case) -> list[Fail]:
                     if t != base:
                         how = "Path" if isinstance(request, Path) else "str"
                         add([Fail("request-form-independent", f"{how}:{_diff_kind(base, t)}", f"tree requested as {TOP!r} differs from tree requested as {how}({_short(d, root)!r}): {_diff(base, t)}")])
+        # clause 8: a full load after a top-module-only load on the same loader and collection
+        by_path = None
+        if case.get("hist") == "path" and tspec is not None and tspec[2]:
+            dirs = [d for d in tspec[2] if os.path.isdir(d)]
+            by_path = Path(dirs[0]) if dirs else None
+        add(_reload_history(by_path, paths, root, base, view))
         # clause 7: the same on ONE loader with a history (search paths change between requests)
         if case.get("hist") and len(paths) >= 2:
             add(_history(case["hist"], paths, root))
@@ -371,6 +379,30 @@ def _history(op: str, paths: list[Path], root: Path) -> list[Fail]:
             how = "a request by path outside the search paths"
             request(first / TOP, f"request by the path {_short(first / TOP, root)}")
     request(TOP, f"request by name after {how}")
+    return out
+
+
+def _reload_history(req_by_path, paths: list[Path], root: Path, base: dict | None, view: fs.CPythonView) -> list[Fail]:
+    """One GriffeLoader and ONE modules collection: `p` is first loaded with submodules=False (top module only), then
+    loaded again in full, by name or by the path of its top-level directory. The second answer must be the complete
+    tree: judged by the oracle like any load, and equal to what a fresh loader returns."""
+    import griffe
+
+    loader = griffe.GriffeLoader(search_paths=list(paths), allow_inspection=False)
+    out: list[Fail] = []
+    with fs.listing_order("sorted"):
+        try:
+            call("total", loader.load, TOP, submodules=False, allowed=(ModuleNotFoundError,), what="loader.load('p', submodules=False)")
+            second = req_by_path if req_by_path is not None else TOP
+            top = call("total", loader.load, second, allowed=(ModuleNotFoundError,), what=f"loader.load({_short(second, root)!r}) after load('p', submodules=False) on the same loader")
+            tree = fs.griffe_tree(top, root)
+        except ModuleNotFoundError:
+            tree = None
+    label = "full load after load('p', submodules=False) on the same loader and collection"
+    for f in judge(tree, view, root):
+        out.append(Fail(f.clause, f"reload:{f.kind}", f"[{label}] {f.message}", f.detail))
+    if tree != base and not out:
+        out.append(Fail("request-form-independent", f"reload:{_diff_kind(base, tree)}", f"[{label}] tree differs from the one a fresh loader returns: {_diff(base, tree)}"))
     return out
 
 
